@@ -5,7 +5,7 @@
 
    The machine (model/Hist.v): an object [OU digits | OI bigint] is created by any constructor
    [ctor] from arbitrary input (redundant high zero words, padding bytes, sign/magnitude
-   mismatch, serde tokens) and mutated in place by any finite list of [op]
+   mismatch, serde tokens, radix digit strings with leading zeros) and mutated in place by any finite list of [op]
    (+= -= *= /= %= &= |= ^= <<= >>= with big and scalar operands, set_bit, set_zero, set_one,
    clone_from, assign_from_slice, neg, not, abs, signum, div_floor/mod_floor/div_euclid/
    rem_euclid/div_ceil, pow, sqrt, cbrt, nth_root, gcd, lcm); [step] CALLS the model of the
@@ -57,19 +57,19 @@ Print Assumptions C04_step_canon_nomul.
 
 (** ** every constructor yields the canonical object of the value its input denotes *)
 Theorem C04_construct_spec : forall c, ctor_wf c ->
-  construct c = Ret (oenc (fst (sconstruct c)) (snd (sconstruct c))).
-Proof. exact construct_spec. Qed.
+  construct P c = Ret (oenc (fst (sconstruct c)) (snd (sconstruct c))).
+Proof. exact (construct_spec P ok). Qed.
 Print Assumptions C04_construct_spec.
 
 (** ** reachability: by induction over the history *)
 Theorem C04_reachable_canon_partial : forall c ops s0 s, ctor_wf c -> Forall op_ok ops ->
-  start c = Ret s0 -> run P s0 ops = Ret s -> ocanon s.
+  start P c = Ret s0 -> run P s0 ops = Ret s -> ocanon s.
 Proof. intros; eapply reachable_canon; eauto using ok. Qed.
 Print Assumptions C04_reachable_canon_partial.
 
 Theorem C04_reachable_canon_nomul : forall c ops s0 s, ctor_wf c -> Forall op_wf ops ->
   forallb (fun o => negb (uses_mul o)) ops = true ->
-  start c = Ret s0 -> run P s0 ops = Ret s -> ocanon s.
+  start P c = Ret s0 -> run P s0 ops = Ret s -> ocanon s.
 Proof.
   intros c ops s0 s Hc Hw Hn E0 E.
   exact (reachable_canon P ok c ops s0 s Hc (ops_ok_nomul _ Hw Hn) E0 E).
